@@ -142,6 +142,12 @@ def unparse(node: ast.AST) -> str:
 def _splat_literal_dicts(tree: ast.AST) -> None:
     """`kw = {'a': x, 'b': y}` ... `f(.., **kw)` in the same block, kw used nowhere else and nothing the values mention rebound in
     between: the call is `f(.., a=x, b=y)` (the rules bind call arguments by name)."""
+    # `dict(a=x, b=y)` is the literal {'a': x, 'b': y}
+    for c in ast.walk(tree):
+        if isinstance(c, ast.Assign) and isinstance(c.value, ast.Call) and isinstance(c.value.func, ast.Name) and c.value.func.id == "dict" \
+                and not c.value.args and c.value.keywords and all(k.arg is not None for k in c.value.keywords):
+            c.value = ast.copy_location(ast.Dict(keys=[ast.Constant(value=k.arg) for k in c.value.keywords], values=[k.value for k in c.value.keywords]), c.value)
+    ast.fix_missing_locations(tree)
     for fn in ast.walk(tree):
         if not isinstance(fn, (ast.FunctionDef, ast.AsyncFunctionDef)):
             continue
@@ -199,6 +205,46 @@ def _splat_literal_tuples(tree: ast.AST) -> bool:
             if isinstance(n, ast.Assign) and len(n.targets) == 1 and isinstance(n.targets[0], ast.Name) and isinstance(n.value, ast.Tuple) \
                     and all(isinstance(e, (ast.Name, ast.Constant)) for e in n.value.elts):
                 stores.setdefault(n.targets[0].id, []).append(n)
+        # a tuple of arbitrary expressions that is only splatted once, a few plain assignments later in the same block
+        nload: Dict[str, int] = {}
+        for n in ast.walk(fn):
+            if isinstance(n, ast.Name) and isinstance(n.ctx, ast.Load):
+                nload[n.id] = nload.get(n.id, 0) + 1
+        for owner in ast.walk(fn):
+            for fld in ("body", "orelse", "finalbody"):
+                blk = getattr(owner, fld, None)
+                if not (isinstance(blk, list) and blk and isinstance(blk[0], ast.stmt)):
+                    continue
+                k = 0
+                while k < len(blk):
+                    st = blk[k]
+                    if isinstance(st, ast.Assign) and len(st.targets) == 1 and isinstance(st.targets[0], ast.Name) and isinstance(st.value, ast.Tuple) \
+                            and not all(isinstance(e, (ast.Name, ast.Constant)) for e in st.value.elts) and nstore.get(st.targets[0].id) == 1 and nload.get(st.targets[0].id) == 1 \
+                            and not any(isinstance(e, ast.Starred) for e in st.value.elts):
+                        t = st.targets[0].id
+                        mentioned = {x.id for e in st.value.elts for x in ast.walk(e) if isinstance(x, ast.Name)}
+                        done = False
+                        for j in range(k + 1, min(k + 6, len(blk))):
+                            later = blk[j]
+                            calls = [c for c in ast.walk(later) if isinstance(c, ast.Call) and any(isinstance(a, ast.Starred) and isinstance(a.value, ast.Name) and a.value.id == t for a in c.args)]
+                            if calls and isinstance(later, (ast.Assign, ast.Expr, ast.Return, ast.AnnAssign)):
+                                c = calls[0]
+                                new_args = []
+                                for a in c.args:
+                                    if isinstance(a, ast.Starred) and isinstance(a.value, ast.Name) and a.value.id == t:
+                                        new_args += list(st.value.elts)
+                                    else:
+                                        new_args.append(a)
+                                c.args = new_args
+                                del blk[k]
+                                changed = True
+                                done = True
+                                break
+                            if not isinstance(later, (ast.Assign, ast.AnnAssign)) or any(isinstance(x, ast.Name) and isinstance(x.ctx, (ast.Store, ast.Del)) and x.id in mentioned for x in ast.walk(later)):
+                                break
+                        if done:
+                            continue
+                    k += 1
         for t, sts in stores.items():
             if len(sts) != 1 or nstore.get(t) != 1:
                 continue
@@ -245,10 +291,11 @@ def _unroll_literal_loops(tree: ast.AST) -> None:
                 else:
                     ld_[x.id] = ld_.get(x.id, 0) + 1
         for x in ast.walk(fn):
-            if isinstance(x, ast.Assign) and len(x.targets) == 1 and isinstance(x.targets[0], ast.Name) and isinstance(x.value, (ast.Tuple, ast.List)) \
-                    and len(st_.get(x.targets[0].id, [])) == 1 and ld_.get(x.targets[0].id) == 1:
+            tg_ = x.targets[0] if isinstance(x, ast.Assign) and len(x.targets) == 1 else (x.target if isinstance(x, ast.AnnAssign) else None)
+            if isinstance(tg_, ast.Name) and isinstance(getattr(x, "value", None), (ast.Tuple, ast.List)) \
+                    and len(st_.get(tg_.id, [])) == 1 and ld_.get(tg_.id) == 1:
                 for lp in ast.walk(fn):
-                    if isinstance(lp, ast.For) and isinstance(lp.iter, ast.Name) and lp.iter.id == x.targets[0].id:
+                    if isinstance(lp, ast.For) and isinstance(lp.iter, ast.Name) and lp.iter.id == tg_.id:
                         tables[id(lp)] = x.value
 
     class T(ast.NodeTransformer):
@@ -276,6 +323,14 @@ def _unroll_literal_loops(tree: ast.AST) -> None:
                     class S(ast.NodeTransformer):
                         def visit_Name(self, x):
                             return _copy.deepcopy(sub[x.id]) if isinstance(x.ctx, ast.Load) and x.id in sub else x
+
+                        def visit_Call(self, x):
+                            self.generic_visit(x)
+                            # an immediately invoked parameterless lambda is its body
+                            if isinstance(x.func, ast.Lambda) and not x.args and not x.keywords and not x.func.args.args and not x.func.args.vararg \
+                                    and not x.func.args.kwarg and not x.func.args.kwonlyargs and not x.func.args.posonlyargs:
+                                return x.func.body
+                            return x
                     out += [S().visit(_copy.deepcopy(b)) for b in n.body]
                 else:
                     out.append(ast.copy_location(ast.Assign(targets=[_copy.deepcopy(n.target)], value=_copy.deepcopy(e)), n))
@@ -289,6 +344,11 @@ def _unroll_literal_loops(tree: ast.AST) -> None:
         class D(ast.NodeTransformer):
             def visit_Assign(self, x):
                 if len(x.targets) == 1 and isinstance(x.targets[0], ast.Name) and x.targets[0].id in dead and isinstance(x.value, (ast.Tuple, ast.List)):
+                    return ast.copy_location(ast.Pass(), x)
+                return x
+
+            def visit_AnnAssign(self, x):
+                if isinstance(x.target, ast.Name) and x.target.id in dead and isinstance(x.value, (ast.Tuple, ast.List)):
                     return ast.copy_location(ast.Pass(), x)
                 return x
         D().visit(tree)
